@@ -6,7 +6,7 @@ EXTENDS Integers, Sequences, FiniteSets, Json, TLC
 CONSTANT Part
 
 Kinds == {"r8", "r16", "r32", "sreg", "creg", "imm_s", "imm_l", "m16", "m32", "bm", "wm", "dm", "lab", "undef", "str", "chr",
-          "m16bad", "fwdequ"}       \* an addressing mode that does not exist; an EQU name defined LATER with a non-constant body
+          "m16bad", "fwdequ", "globundef"}       \* an addressing mode that does not exist; an EQU name defined LATER with a non-constant body
 \* segment:offset operands (far pointers) whose parts are of unusual kinds (C13)
 FarKinds == {"far_ii", "far_kw", "far_es", "far_ec", "far_bs", "far_il", "far_li", "far_ri", "far_noff"}
 Shapes ==
